@@ -25,6 +25,8 @@ func runC02(c *Ctx) {
 	R.Rule("C02.R4", "bare elements: in the StartTag and SelfClosingTag arms a tag is written only if an attribute survived or allowNoAttrs(token.Data); allowNoAttrs returns true only across a lookup in the bare-element set or a MatchString of a registered bare-element pattern on its argument")
 	R.Rule("C02.R5", "argument provenance: sanitizeAttrs is called with (token.Data, token.Attr, rules) where rules is the value found in elsAndAttrs[token.Data] or returned by matchRegex(token.Data), and its result is stored back into token.Attr")
 	R.Rule("C02.R7", "each incoming attribute is kept at most once: no path through one iteration of the filter loop appends twice")
+	R.Rule("C02.R8", "no two keys of a rule table share one mutable entry: every map stored as a table entry is created by a make that is stored by exactly that one update and lies inside every loop containing the update")
+	sharedEntryRule(c, "C02.R8", attrTables, "an attribute rule registered later for one element is applied to the others too")
 	R.Rule("C02.R6", "isDataAttribute accepts only data-<non-empty>, without upper-case letters or ';', not starting with xml (exact language computation on the three regexps and the Split segmentation)")
 	R.Assume(TrustGo, TrustTokenizer, TrustRegexp, "quality of user-supplied value patterns is out of scope; duplicated attributes / exotic attribute-name bytes as re-read by a parser are not decided")
 	F := model.FindFields(c.P)
